@@ -127,6 +127,7 @@ func tcw(runs, chunk, budget, perRun int) tierCfg {
 
 var props = map[string]propCfg{
 	"C03": {Quick: tc(2000, 100, 45), Thorough: tc(150000, 250, 900)},
+	"C17": {Quick: tc(1500, 50, 60), Thorough: tc(60000, 100, 900)},
 	"C18": {Quick: tcw(30000, 500, 45, 6), Thorough: tcw(400000, 500, 900, 6)},
 	"C04": {Quick: tc(2500, 100, 60), Thorough: tc(150000, 200, 900), Race: true},
 	"C05": {Quick: tc(5000, 200, 45), Thorough: tc(300000, 500, 900)},
@@ -873,8 +874,8 @@ func cmdRun(args []string) int {
 					}
 				}
 				tr := fin.Trace
-				if len(tr) > 400 {
-					tr = tr[len(tr)-400:]
+				if len(tr) > 1500 {
+					tr = tr[len(tr)-1500:]
 				}
 				rp.Trace = tr
 			} else {
